@@ -519,9 +519,17 @@ func (s *stRun) checkCut(log []simdisk.LogOp, j, torn int, res *Result, fpSet ma
 	img := s.d.ImageAt(j, torn)
 	nDur, nMax := 0, 0
 	lastSyncLog := 0
+	// The persisted prefix may be shorter than what had been issued when the power failed: everything after the
+	// last completed fsync can be lost. Image j is therefore a legal outcome of a crash at any moment up to (not
+	// including) the completion of the next fsync at or after operation j - and whatever the engine had reported as
+	// synced by then (a Sync/Close that returned without error) must be in it. An engine that returns from Sync
+	// without having fsynced is caught here: its barrier lies before any fsync that would cover the data.
+	kCrash := nextFsync(log, j)
 	for _, du := range s.durs {
-		if du.logAt <= j {
+		if du.logAt <= kCrash {
 			nDur = du.n
+		}
+		if du.logAt <= j {
 			lastSyncLog = du.logAt
 		}
 	}
@@ -660,4 +668,15 @@ func sortedKeys(m map[string]int64) []string {
 	}
 	sort.Strings(ks)
 	return ks
+}
+
+// nextFsync returns the index of the first fsync operation at or after j (len(log) if there is none): the latest
+// crash moment for which "exactly the first j operations are persistent" is still a legal image.
+func nextFsync(log []simdisk.LogOp, j int) int {
+	for i := j; i < len(log); i++ {
+		if log[i].Kind == simdisk.OpFsync {
+			return i
+		}
+	}
+	return len(log)
 }
